@@ -2,9 +2,9 @@
 (* C30: judges records produced by the REAL pdfcpu fetch guards               *)
 (* (harness/inpkg/pkg/pdfcpu/{sign,primitives}/verif_net_test.go).            *)
 (*                                                                           *)
-(* records.json holds either flow records (one guarded fetch incl. its     *)
+(* records.json holds flow records (one guarded fetch including its         *)
 (* redirects: the requests that reached the transport, every connect attempt *)
-(* a dial guard let through, the inspected client object) or probe records   *)
+(* a dial guard let through, the inspected client object) and probe records  *)
 (* (the decision of the dial guard installed in the real client object for   *)
 (* one host / resolver answer).  Every predicate is recomputed here from the *)
 (* logged bytes (address bytes, host-name bytes, allow-list bytes); no       *)
@@ -13,7 +13,7 @@ EXTENDS NetAddr, Json, TLC
 
 CONSTANT Chunk              \* records judged per step (TLC's cost per BFS level dominates for long traces)
 \* element 1 is the string table [t |-> "tab", strs |-> <<byte sequences>>]: records name hosts / allow-list entries by
-\* their index in it (deserialising integer sequences is what costs time); the records proper start at element 2
+\* their index in it; the records proper start at element 2
 File == JsonDeserialize("records.json")     \* one JSON array: ndJsonDeserialize costs ~2 ms per line
 Str(i) == File[1].strs[i]
 Strs(is) == [j \in 1..Len(is) |-> Str(is[j])]
@@ -23,7 +23,6 @@ VARIABLE l                  \* number of the chunk being judged
 Init == l = 1
 Next == l <= NChunks /\ l' = l + 1
 Spec == Init /\ [][Next]_l
-\* (a reference to Trace costs time proportional to the file: every invariant binds it once per step)
 IdxOf(n) == IF l <= NChunks THEN { k \in ((l - 1) * Chunk + 1)..(l * Chunk) : k <= n } ELSE {}
 
 Rev == {"crl", "ocsp"}
